@@ -3,3 +3,4 @@ open Dashu.Props.C03Link
 #print axioms sqrtRemRepr_ok
 #print axioms sqrt_contract_over_sqrt_rem
 #print axioms kernels_agree
+#print axioms sqrt_exact_flag_over_sqrt_rem
